@@ -15,12 +15,12 @@ from vf import coqrun as cq
 
 RULE = ("3-8 bus nets: 110 kV ext_grid (S_sc 500-5000 MVA, R/X 0.1-0.4), 1-2 network transformers 110/20 kV, 2-6 MV buses "
         "joined by a random tree + chords of lines (random r/x/length/parallel/end temperature), optional second ext_grid at an "
-        "MV bus, optional 20/0.4 kV transformer + LV bus, optional synchronous generator; options case min/max, fault 3ph/2ph, "
+        "MV bus, optional 20/0.4 kV transformer + LV bus, optional synchronous generator, in 40 % 2-3 current-source sgens at different MV buses; options case min/max, fault 3ph/2ph, "
         "kappa method B/C, topology auto/radial/meshed, fault impedance, inverse_y, bus subsets, sn_mva 1/100; "
         "non-trivial = meshed (a chord or two infeeds) or a fault impedance or an LV bus")
 ASSUMPTIONS = ["sqrt and exp are oracles passed to the rational model (math.sqrt / math.exp), residuals of s3*s3=3, s2*s2=2, zabs^2=r^2+x^2 below 1e-15",
                "numpy/scipy inverse and sparse LU are compared with an exact rational solve of the same Ybus (tolerance 1e-9)",
-               "no current-source contributions in the generated nets (no sgens, no motors); 1ph faults are not generated"]
+               "40 % of the nets carry 2-3 current-source sgens (sn_mva, k); for case max the ikss/2ph-ratio relations, stated without current-source contributions, are then checked on the voltage-source column IKSS1 through the model only; no motors; 1ph faults are not generated"]
 TRUSTED = ["white-box capture of ppci['internal']['Ybus'] by wrapping pandapower.shortcircuit.calc_sc._calc_ybus in the harness process",
            "independent assembly of the short-circuit network in harness/props/c18.py (numpy complex)"]
 TOL = 1e-8
@@ -35,7 +35,7 @@ def sc_net(rng, sn_mva=1.0):
     net = pp.create_empty_network(sn_mva=sn_mva)
     hv = pp.create_bus(net, vn_kv=110.0)
     pp.create_ext_grid(net, hv, s_sc_max_mva=float(rng.choice([500, 1000, 2500, 5000])), s_sc_min_mva=float(rng.choice([300, 400, 450])),
-                       rx_max=rng.choice([0.1, 0.25, 0.4]), rx_min=rng.choice([0.1, 0.125, 0.3]))
+                       rx_max=rng.choice([0.1, 0.25, 0.4]), rx_min=rng.choice([0.1, 0.125, 0.35]))   # never exactly 0.3: the method-B threshold
     nmv = rng.randint(2, 6)
     mv = [pp.create_bus(net, vn_kv=20.0) for _ in range(nmv)]
     edges = [(mv[rng.randrange(0, i)], mv[i]) for i in range(1, nmv)]
@@ -53,7 +53,7 @@ def sc_net(rng, sn_mva=1.0):
                               parallel=rng.choice([1, 1, 2]))
     if rng.random() < 0.3:
         pp.create_ext_grid(net, rng.choice(mv), s_sc_max_mva=float(rng.choice([100, 250])), s_sc_min_mva=float(rng.choice([60, 80])),
-                           rx_max=0.3, rx_min=0.4)
+                           rx_max=0.35, rx_min=0.4)
     if rng.random() < 0.3:
         lv = pp.create_bus(net, vn_kv=0.4)
         pp.create_transformer(net, rng.choice(mv), lv, std_type=rng.choice(["0.4 MVA 20/0.4 kV", "0.63 MVA 20/0.4 kV"]))
@@ -64,6 +64,11 @@ def sc_net(rng, sn_mva=1.0):
     for b in mv:
         if rng.random() < 0.4:
             pp.create_load(net, b, p_mw=1.0, q_mvar=0.2)
+    # current sources (full converter sgens with sc data) at several buses
+    if rng.random() < 0.4:
+        for b in rng.sample(mv, min(len(mv), rng.randint(2, 3))):
+            pp.create_sgen(net, b, p_mw=rng.randint(2, 8) * 1.0, sn_mva=float(rng.choice([4, 8, 10])), k=rng.choice([1.1, 1.3, 1.5]),
+                           in_service=rng.random() < 0.9)
     meshed = len(edges) > nmv - 1 or len(net.ext_grid) > 1 or len(net.trafo[net.trafo.hv_bus == hv]) > 1 or has_gen
     return net, meshed
 
@@ -133,7 +138,7 @@ def exact_diag(Y):
 # ------------------------------------------------------------------ independent network of the sc models
 def independent_thevenin(net, case, lv_tol_percent=10):
     """{bus: Zkk in ohm} from element data; None if the net has elements outside the scope"""
-    if len(net.gen) > 1 or len(net.sgen) or len(net.trafo3w) or len(net.impedance) or len(net.ward) or len(net.xward) or len(net.motor):
+    if len(net.gen) > 1 or len(net.trafo3w) or len(net.impedance) or len(net.ward) or len(net.xward) or len(net.motor):
         return None
     sb = 7.0   # any base; deliberately unlike net.sn_mva
     idx = {b: i for i, b in enumerate(net.bus.index)}
@@ -231,15 +236,18 @@ def one_case(ctx, rng, k, terms, pend, fixed=None):
         ik, sk, ipk, rk, xk = (float(res.at[b, x]) for x in ("ikss_ka", "skss_mw", "ip_ka", "rk_ohm", "xk_ohm"))
         zk = math.hypot(rk, xk)
         bad = []
+        # current sources contribute (case max, in-service sgens): the relations of the property that are stated
+        # "without current-source contributions" are then checked on the voltage-source part only (model side)
+        cs = o["case"] == "max" and bool(len(net.sgen)) and bool(net.sgen.in_service.any())
         # ---- spec relations on the result table
         exp_ik = c_spec * vn / (s3 * zk) * (s3 / 2 if ph2 else 1.0)
-        if rel(ik, exp_ik) > TOL:
+        if not cs and rel(ik, exp_ik) > TOL:
             bad.append("ikss_ka=%r but c*Un/(sqrt3*|Zk|)%s = %r" % (ik, "*sqrt3/2" if ph2 else "", exp_ik))
         exp_sk = (ik * vn / s3) if ph2 else (s3 * vn * ik)
         if rel(sk, exp_sk) > TOL:
             bad.append("skss_mw=%r, expected %r" % (sk, exp_sk))
         kap = ipk / (s2 * ik)
-        if not (1.02 - 1e-9 <= kap <= 2 + 1e-9):
+        if not ((1.0 if cs else 1.02) - 1e-9 <= kap <= 2 + 1e-9):
             bad.append("ip/(sqrt2*ikss) = kappa = %r outside [1.02, 2]" % kap)
         if thev is not None:
             zi = thev[b] + complex(rf, xf)
@@ -281,7 +289,11 @@ def one_case(ctx, rng, k, terms, pend, fixed=None):
                                                cq.q(math.sqrt(rx * rx + 1))))
         pend.append(("ext_grid GS/BS", [float(row[GS]), float(row[BS])], desc))
     # ---- metamorphic runs
-    meta = rng.choice(["sn_mva", "inverse_y", "subset", "2ph"]) if fixed is None else fixed.get("meta", "sn_mva")
+    has_cs = o["case"] == "max" and bool(len(net.sgen)) and bool(net.sgen.in_service.any())
+    meta = rng.choice(["sn_mva", "inverse_y", "inverse_y", "subset"] if has_cs else ["sn_mva", "inverse_y", "subset", "2ph"]) \
+        if fixed is None else fixed.get("meta", "sn_mva")
+    if has_cs:
+        ctx.count("current_sources_%s" % o["fault"])
     desc["meta"] = meta
     ctx.count("metamorphic_" + meta)
     n2 = pp.from_json_string(desc["net"])
